@@ -1,6 +1,7 @@
 """C15 -- a well-formed workbook always yields a complete, faithful output workbook."""
 import math
 import os
+import re
 import shutil
 import time
 import warnings
@@ -140,7 +141,18 @@ def check_table(case, obs):
     t = df.set_index('ID')
     path = os.path.join(workdir(), 'c15t.xlsx')
     other = pd.DataFrame({'Value': ['x']}, index=pd.Index(['k'], name='Keyword'))
-    w = call(xl.write_workbook, path, [('First', other), ('Data sheet', t)])
+    bare = (len(cols) + len(ids)) % 3 == 0
+    if bare:
+        # a file name without any directory part, relative to the current directory
+        cwd = os.getcwd()
+        os.chdir(workdir())
+        try:
+            w = call(xl.write_workbook, 'c15t.xlsx', [('First', other), ('Data sheet', t)])
+        finally:
+            os.chdir(cwd)
+        obs.label('bare_file_name')
+    else:
+        w = call(xl.write_workbook, path, [('First', other), ('Data sheet', t)])
     mixed = len({type(v).__name__ for r in rows for v in r if v is not None}) >= 2
     has_empty = any(v is None for r in rows for v in r)
     obs.nontrivial = mixed and has_empty
@@ -228,14 +240,14 @@ def verify_output(obs, in_path, out_path, hist, expect):
         else:
             base = ['Analysis Notes', 'Number of Events', 'Acquisition Time (s)']
             if sheet == 'Beads':
-                chans = [c[:-len(' MEF Values')] for c in tin.columns if c.endswith(' MEF Values')]
+                chans = [m_.group(1) for m_ in (re.match(r'^\s*(\S(?:.*\S)?)\s+MEF\s+Values\s*$', str(c)) for c in tin.columns) if m_]
                 exp_added = base + [ch + ' ' + x for ch in chans for x in BEAD_COLS]
                 if not any(v for v in expect['beads_healthy']):
                     exp_alt = base + [ch + ' ' + x for ch in chans for x in BEAD_COLS[:2]]
                 else:
                     exp_alt = exp_added
             else:
-                chans = [c[:-len(' Units')] for c in tin.columns if c.endswith(' Units')]
+                chans = [m_.group(1) for m_ in (re.match(r'^\s*(\S(?:.*\S)?)\s+Units\s*$', str(c)) for c in tin.columns) if m_]
                 exp_added = exp_alt = base + [ch + ' ' + x for ch in chans for x in SAMPLE_STATS]
             obs.claim('result_columns', added in (exp_added, exp_alt),
                       lambda: '%s sheet: added columns %r, documented %r' % (sheet, added, exp_added))
@@ -274,7 +286,20 @@ def check_run(case, obs):
         t0 = time.time()
         with warnings.catch_warnings():
             warnings.simplefilter('ignore')
-            r = call(xl.run, in_path, None if case['default_out'] else out_path, verbose=False, plot=case['plot'], hist_sheet=case['hist'])
+            if case['np_seed'] % 4 == 1:
+                # started from inside the experiment folder: input (and output) named without a directory part
+                if not case['default_out']:
+                    out_path = os.path.join(base, 'out.xlsx')
+                cwd = os.getcwd()
+                os.chdir(base)
+                try:
+                    r = call(xl.run, stem + '.xlsx', None if case['default_out'] else 'out.xlsx', verbose=False, plot=case['plot'],
+                             hist_sheet=case['hist'])
+                finally:
+                    os.chdir(cwd)
+                obs.label('run_from_inside_the_folder')
+            else:
+                r = call(xl.run, in_path, None if case['default_out'] else out_path, verbose=False, plot=case['plot'], hist_sheet=case['hist'])
         plt.close('all')
         took = time.time() - t0
         obs.label('run', 'plot' if case['plot'] else 'no_plot', 'hist' if case['hist'] else 'no_hist',
@@ -364,7 +389,7 @@ def curated_runs():
                            'c3.fcs': cells(6, 256), 'c4.fcs': cells(7, 1024, 'F')},
                     samples=[srow(1, 'c1.fcs', {'FL1-H': 'MEF', 'FL2-H': 'Channel'}), srow(2, 'c2.fcs', {'FL1-H': 'RFI'}),
                              srow(3, 'c4.fcs', {'FL2-H': 'a.u.'}, beads=None), srow(4, 'c3.fcs', {'FL1-H': 'Channel', 'FL3-H': 'rfi'})],
-                    np_seed=3, plot=False, hist=True, default_out=True))
+                    np_seed=3, plot=False, hist=True, default_out=True, header_ws=True))
     # every row faulty except one; two clustering channels; plots on
     out.append(dict(arm='run', instruments=[i1],
                     beads=[dict(b1, clustering=['FL1-H', 'FL2-H']), dict(b1, id='B2', file='absent_beads.fcs', fault='missing')],
